@@ -67,6 +67,10 @@ def call_entry(entry, text, language=None):
         return parser.parse_steps(text, language=language, filename="fuzz.feature")
     if entry == "tags":
         return parser.parse_tags(text)
+    if entry == "steps-with-reused-parser":
+        # what context.execute_steps() does: the parser object that parsed the feature file parses a steps text
+        feature = parser.parse_feature(REUSE_DOC, filename="fuzz.feature")
+        return feature.parser.parse_steps(text)
     if entry == "file":
         # the file-level API the runner uses: line numbers are those of the file on disk
         import os
@@ -80,6 +84,9 @@ def call_entry(entry, text, language=None):
         finally:
             os.unlink(path)
     raise ValueError(entry)
+
+
+REUSE_DOC = u"Feature: f\n  Scenario: s\n    Given a step\n      | a |\n      | 1 |\n    When another step\n"
 
 
 _LOGGER_SILENCED = []
@@ -291,6 +298,11 @@ def catalogue(feat, text, facts):
                 if not sub["steps"]:
                     pos = _after_header(sub)
                     yield "and-without-predecessor", pos, u"      %sorphan" % and_kw, pos + 1
+    # an Examples section directly below a Rule header (whatever stands in front of the rule -- e.g. an outline)
+    for item in facts["items"]:
+        if item["kind"] == "rule":
+            pos = _after_header(item)
+            yield "examples-outside-outline", pos, u"    %s: stray" % examples_kw, pos + 1
     # malformed tag token directly before an element (its first tag line or its keyword line)
     for item in [facts] + list(_iter_all(facts)):
         first = min([item["line"]] + [ln for _t, ln in item.get("tags", [])])
@@ -376,8 +388,9 @@ def check_catalogue(res, case):
     # doc-string / table before any step (parse_steps entry, line 1)
     for fault, first in (("docstring-before-step", u'"""\ntext\n"""\n'), ("table-before-step", u"| a |\n| 1 |\n")):
         probe(res, "steps", first + u"Given a step\n", feat.get("lang"), expect_line=1, fault=fault)
+        probe(res, "steps-with-reused-parser", first + u"Given a step\n", None, expect_line=1, fault=fault)
         res.label("fault:" + fault)
-        count += 1
+        count += 2
     res.evals = max(1, count)
     res.nontrivial = count > 2
     if (case.get("spice") or 0) % len(SPICES):
